@@ -383,6 +383,8 @@ def answer (xs : List Sexp) : String :=
   | [.atom "det", .atom _] => "ok"
   | [.atom "verify", .atom _] => "ok"
   | [.atom "verify-strict", .atom _] => "ok"
+  | [.atom "accrefs", .atom _] => "ok"
+  | [.atom "sameidl", .atom _, .atom _] => "ok"
   | [.atom "count", .atom _, .atom a, .atom b] => s!"ok {a} {b}"
   | _ => "bad-op"
 
